@@ -65,7 +65,7 @@ AddRx == /\ pc = "build" /\ NRx(prog) < MaxRx
                           named |-> (Len(re) % 2 = 1), unset |-> FALSE])]
          /\ UNCHANGED <<safe, tp, x0, x, now, idx, rows, fired, evlog, steps, pc, tau>>
 
-Start == /\ pc = "build" /\ NRx(prog) >= 1
+Start == /\ pc = "build" /\ NRx(prog) >= 1 /\ (BoundedDynamics(prog) = TRUE)
          /\ IF Mode = "sim" THEN (IF NRx(prog) = MaxRx THEN TRUE ELSE RandomElement(1..3) = 1) ELSE NRx(prog) = MaxRx
          /\ \E xx \in Pick([Sp -> 0..(IF Mode = "sim" THEN 6 ELSE 2)]),
               g \in (IF Mode = "sim" THEN Pick(Grids) ELSE {[i \in 1..NT |-> I(i - 1)]}), sf \in Pick(BOOLEAN) :
